@@ -285,7 +285,11 @@ func (w *LiveWorld) Infra(pkg int) string {
 	ln("type HolderV struct { F func(...int) int }")
 	ln("var GF int")
 	ln("func setGF(v int) { GF = v }")
-	ln("var S int")
+	if len(w.Ents)%2 == 0 {
+		ln("var S int")
+	} else {
+		ln("var S0, S int") // a later name of a declaration list keeps its value across reloads just the same
+	}
 	ln("var SA any")
 	ln("var SM map[string]int") // allocated by captureInst and left empty: an empty map is not a nil map
 	ln("var SS []int")
